@@ -56,6 +56,16 @@ def check_run(out):
         if opted_out(job):
             continue
         by_key.setdefault((job.eval_hash, job.context_hash), []).append(job)
+    # each distinct expression reached from the same parent job is evaluated once: one Job per (parent, expression)
+    per_parent = {}
+    for mid, pe in getattr(tr, "expr_of", {}).items():
+        if pe is not None and pe[0] is not None:
+            per_parent.setdefault(pe, []).append(mid)
+    for (pid, h), mids in per_parent.items():
+        if len(mids) > 1:
+            bad.append(("expression-evaluated-twice:same-parent",
+                        f"jobs {mids} were all created for one expression (hash {h[:8]}) of parent job "
+                        f"{tr.jobid.get(pid, pid)}"))
     for key, jobs in by_key.items():
         subs = [j for j in jobs if tr.ex.nsubmits.get(j.id, 0) >= 1]
         if len(subs) > 1:
@@ -126,6 +136,16 @@ class Check(PropertyCheck):
         out3 = sched.run_program(lambda: vm.call(WITNESS_CTX), {"r0": 1}, random.Random(self.seed), cache=False)
         out3["spec"], out3["limits"] = WITNESS_CTX, {"r0": 1}
         runs = [("witness", out), ("witness2", out2), ("witness-ctx", out3)] + [("random", o) for o in getattr(self, "runs", [])]
+        # one parent demands the same call again after the first demand has settled (seq of equal calls; catch then bare;
+        # failing and succeeding): still one job per expression of that parent (seeded change C07d)
+        for i, (kind, leafkind) in enumerate([("seq", "leaf"), ("catchthen", "leaf"), ("catchthen", "raise"), ("seq", "list")]):
+            x = (f"rx{i}", leafkind, 3, (), None) if leafkind != "list" else (f"rx{i}", "list", 3, ((f"ry{i}", "leaf", 1, (), None),), None)
+            kids = (x, x, x) if kind == "seq" else (x,)
+            spec = (f"rp{i}", "catchany", 0, ((f"rq{i}", kind, 0, kids, None),), None)
+            for cache in (True, False):
+                o4 = sched.run_program(lambda: vm.call(spec), {"r0": 1}, random.Random(self.seed + i), cache=cache)
+                o4["spec"], o4["limits"] = spec, {"r0": 1}
+                runs.append(("re-demanded", o4))
         # twins parked together in the limits queue behind a blocker that holds the whole limit, woken together when it
         # completes (seeded change C06b: the pending-twin check skipped on re-entry from the limits queue)
         for lim, cache, nt in [(2, True, 2), (3, True, 3), (2, False, 2), (1, False, 2), (2, True, 3)]:
